@@ -34,8 +34,7 @@ def drive(ctx):
     for zn in my:
         zr = {"n": zn, "fo": 0}
         trs = zone_transitions(ctx, zn)
-        if q:
-            trs = pick(rnd, trs, 10 if full else 3)
+        trs = pick(rnd, trs, (10 if full else 3) if q else 24)
         for (sec, b, a) in trs:
             g = abs(a - b) or 3600
             ps = probes(sec, b, a)
@@ -60,7 +59,7 @@ def drive(ctx):
                         ctx.emit("add_fixed", dict(args, entry=inv), pre_objs=[r])
         # raw-constructed values inside overlaps, both folds
         an = [x for x in anomalies(ctx, zn) if x[0] == "overlap"]
-        for (kind, ws, we, _s, _b, _a) in pick(rnd, an, 4 if q else 40):
+        for (kind, ws, we, _s, _b, _a) in pick(rnd, an, 4 if q else 24):
             g = we - ws
             for (ls, us) in ((ws, 0), ((ws + we) // 2, 5), (we - 1, 999999)):
                 w = wall_of_localsec(ls, us)
